@@ -128,6 +128,14 @@ def long_cases():
     for n, lms in ((12, LMS), (60, ["earley", "rescaled"]), (300, ["rescaled"])):
         out.append({"shape": f"long_a^{n}", "finite": False, "cfg": g, "ctxs": [["a"] * n], "xs": [], "lms": lms, "jitter": None,
                     "closed_form": {json.dumps("a"): "1/2", json.dumps("b"): "1/6", json.dumps(EOS): "1/3"}})
+    # very small prefix probabilities (16^-n): S -> a S (1/16) | a (1/4) | b (11/16)
+    # P(a^n) = 16^-n * (Z-ish) ; conditionals for n >= 1: a: 1/16, EOS: G(a^n)/P(a^n), b: rest — closed form below
+    g2 = {"S": "S", "V": ["a", "b"], "rules": [["1/16", "S", ["a", "S"]], ["1/4", "S", ["a"]], ["11/16", "S", ["b"]]]}
+    # P(a^n) = sum_{k>=n-1} 16^-k/4 + sum_{k>=n} 16^-k*11/16 = 16^-(n-1)*(4/15) + 16^-n*(11/15) = 16^-n*(64/15 + 11/15) = 16^-n * 5
+    # P(a^n a) = 16^-(n+1)*5 ; P(a^n b) = 16^-n*11/16 ; G(a^n) = 16^-(n-1)/4 = 16^-n*4  -> a: 1/16, b: 11/80, EOS: 4/5
+    for n in (250, 620):
+        out.append({"shape": f"tiny_prob_a^{n}", "finite": False, "cfg": g2, "ctxs": [["a"] * n], "xs": [], "lms": ["rescaled"], "jitter": None,
+                    "closed_form": {json.dumps("a"): "1/16", json.dumps("b"): "11/80", json.dumps(EOS): "4/5"}})
     return out
 
 
